@@ -164,7 +164,8 @@ def run(tier, replay):
     st_res, st_infos = _txbal_state.collect(st_handle)
     st_tool, st_converse = [], []
     st_fam = collections.Counter()
-    for c in st_cases:
+    # smallest counterexamples first
+    for c in sorted(st_cases, key=lambda x: ({"state": 0, "batch": 1, "large": 2}[x["sect"]], x["n"], x["id"])):
         for verdict, sig, text in _txbal_state.judge(c, st_res[c["id"]]):
             if verdict == "violation":
                 fam = sig.split(":n=")[0].split(":outputs=")[0]
